@@ -205,6 +205,29 @@ def eval_sum(I: Interp, args, fr: Frame, node=None):
         g = gnode.generators[0]
         cf = Frame(gfr.module, gfr.cls, gfr.selfv, gfr.finfo, gfr, gfr.contract, gfr.depth)
         seq = to_seq(I, I.ev(g.iter, gfr))
+        K = I.st.cfg.get("ground")
+        if seq.concrete is None and K and len(gnode.generators) == 1:
+            # bounded mode: the sequence has at most K elements; the sum is written out
+            st = I.st
+            st.assume(seq.n <= K)
+            total = None
+            for j in range(K):
+                _bind(I, g.target, seq.item(z3.IntVal(j)), cf)
+                st.spec_depth += 1
+                try:
+                    cond = z3.IntVal(j) < seq.n
+                    for c in g.ifs:
+                        cond = z3.And(cond, I.truthy(I.ev(c, cf)))
+                    st.guards.append(cond)
+                    try:
+                        x, isr = I.num(I.to_sv(I.ev(gnode.elt, cf)))
+                    finally:
+                        st.guards.pop()
+                finally:
+                    st.spec_depth -= 1
+                term = z3.If(cond, x, z3.RealVal(0) if isr else z3.IntVal(0))
+                total = term if total is None else total + term
+            return SV(smt.mk_real(total) if isr else smt.mk_int(total), T.FLOAT if isr else T.INT)
         if seq.concrete is None or len(gnode.generators) != 1:
             raise Refuse("sum over symbolic generator")
         acc = args[1] if len(args) > 1 else const(0)
